@@ -58,6 +58,7 @@ type env struct {
 	marsh   marshal.Marshalizer
 	fact    *accFactory
 	pruning bool
+	kept    map[string]state.UserAccountHandler // account objects the behaviour keeps (handles)
 }
 
 var theHasher = blake2b.NewBlake2b()
